@@ -236,7 +236,7 @@ fn gen_case(rng: &mut Rng) -> LocCase {
     cfg.whole = false;
     // now and then a document of thousands of items: the corrupted token then sits at a large
     // offset, beyond several realigns, whatever the chunk size
-    let size = if !cfg!(miri) && rng.chance(1, 150) {
+    let size = if !cfg!(miri) && rng.chance(1, 60) {
         3
     } else {
         rng.weighted(&[3, 5, 2])
